@@ -177,6 +177,10 @@ func onlyCalledDirectly(mc *ssa.MakeClosure) bool {
 			if x.Call.Value != ssa.Value(mc) {
 				return false
 			}
+		case *ssa.Defer:
+			if x.Call.Value != ssa.Value(mc) {
+				return false
+			}
 		case *ssa.DebugRef:
 		default:
 			return false
@@ -241,15 +245,89 @@ var walkRelMode *walkRel
 type walkDescendMode struct {
 	MaxDepth int
 	Skip     func(callee *ssa.Function) bool
+	// Up: when a walk that started inside a helper reaches the helper's return with no frame left, it
+	// continues after each of these call sites of the helper (nil: the return is an exit).
+	Up func(callee *ssa.Function) []*ssa.Call
 }
 
 var walkDescend *walkDescendMode
 
 type walkFrame struct {
-	call  *ssa.Call
+	call  *ssa.Call // nil for a deferred call run at RunDefers
+	dfr   *ssa.Defer
 	blk   *ssa.BasicBlock
 	next  int
 	subst map[ssa.Value]ssa.Value
+	more  []*ssa.Defer // deferred calls still to run when this one returns
+}
+
+func (fr walkFrame) callee() *ssa.Function {
+	if fr.call != nil {
+		return fr.call.Call.StaticCallee()
+	}
+	return fr.dfr.Call.StaticCallee()
+}
+
+func (fr walkFrame) owner() *ssa.Function {
+	if fr.call != nil {
+		return fr.call.Parent()
+	}
+	return fr.dfr.Parent()
+}
+
+func (fr walkFrame) id() string {
+	if fr.call != nil {
+		return fr.call.Name() + "@" + fr.call.Parent().Name()
+	}
+	return "defer" + string(rune('0'+len(fr.more))) + "@" + fr.dfr.Parent().Name()
+}
+
+// deferredToRun: the deferred static calls of module functions / function literals that run at
+// this RunDefers (those whose defer statement dominates it), last deferred first.
+func deferredToRun(rd *ssa.RunDefers) []*ssa.Defer {
+	var out []*ssa.Defer
+	fn := rd.Parent()
+	for _, b := range fn.Blocks {
+		for _, in := range b.Instrs {
+			d, ok := in.(*ssa.Defer)
+			if !ok {
+				continue
+			}
+			g := d.Call.StaticCallee()
+			if g == nil || len(g.Blocks) == 0 || !inModule(g) {
+				continue
+			}
+			if b == rd.Block() || b.Dominates(rd.Block()) {
+				out = append(out, d)
+			}
+		}
+	}
+	// reverse (LIFO)
+	for i, j := 0, len(out)-1; i < j; i, j = i+1, j-1 {
+		out[i], out[j] = out[j], out[i]
+	}
+	return out
+}
+
+func deferSubst(parent map[ssa.Value]ssa.Value, d *ssa.Defer) map[ssa.Value]ssa.Value {
+	sub := map[ssa.Value]ssa.Value{}
+	for k, v := range parent {
+		sub[k] = v
+	}
+	g := d.Call.StaticCallee()
+	for i, p := range g.Params {
+		if i < len(d.Call.Args) {
+			sub[p] = d.Call.Args[i]
+		}
+	}
+	if mc, ok := d.Call.Value.(*ssa.MakeClosure); ok {
+		for i, fv := range g.FreeVars {
+			if i < len(mc.Bindings) {
+				sub[fv] = mc.Bindings[i]
+			}
+		}
+	}
+	return sub
 }
 
 // retOf is the fact key for "result #idx of this call, as returned on the current path".
@@ -359,6 +437,7 @@ func nilWalk(fn *ssa.Function, from map[Edge]bool, after ssa.Instruction, cut ma
 		start int
 		last  map[ssa.Value]ssa.Value // per path: value most recently stored into each tracked cell
 		stack []walkFrame
+		ups   int // how many times the walk continued in a caller
 	}
 	cloneLast := func(m map[ssa.Value]ssa.Value) map[ssa.Value]ssa.Value {
 		n := make(map[ssa.Value]ssa.Value, len(m))
@@ -417,7 +496,7 @@ func nilWalk(fn *ssa.Function, from map[Edge]bool, after ssa.Instruction, cut ma
 				for k, v := range walkInitFacts {
 					f0[k] = v
 				}
-				work = append(work, item{b, nil, f0, i + 1, map[ssa.Value]ssa.Value{}, nil})
+				work = append(work, item{b, nil, f0, i + 1, map[ssa.Value]ssa.Value{}, nil, 0})
 			}
 		}
 	} else if from == nil {
@@ -428,7 +507,7 @@ func nilWalk(fn *ssa.Function, from map[Edge]bool, after ssa.Instruction, cut ma
 		for k, v := range walkInitFacts {
 			f0[k] = v
 		}
-		work = append(work, item{fn.Blocks[0], nil, f0, 0, map[ssa.Value]ssa.Value{}, nil})
+		work = append(work, item{fn.Blocks[0], nil, f0, 0, map[ssa.Value]ssa.Value{}, nil, 0})
 	} else {
 		for e := range from {
 			if cut[e] {
@@ -437,7 +516,7 @@ func nilWalk(fn *ssa.Function, from map[Edge]bool, after ssa.Instruction, cut ma
 			f := NilFacts{}
 			// facts implied by the start edge itself
 			applyEdgeFact(e, f, isCell, nil)
-			work = append(work, item{e.From.Succs[e.Idx], e.From, f, 0, map[ssa.Value]ssa.Value{}, nil})
+			work = append(work, item{e.From.Succs[e.Idx], e.From, f, 0, map[ssa.Value]ssa.Value{}, nil, 0})
 		}
 	}
 	maxStates := MaxWalkStates
@@ -533,9 +612,9 @@ func nilWalk(fn *ssa.Function, from map[Edge]bool, after ssa.Instruction, cut ma
 		}
 		key := stateKey(ids, it.b.Index, f, lastStored, it.start > 0)
 		if walkDescend != nil {
-			key += string(rune(it.start)) + "|" + it.b.Parent().Name()
+			key += string(rune(it.start)) + string(rune('0'+it.ups)) + "|" + it.b.Parent().Name()
 			for _, fr := range it.stack {
-				key += "/" + fr.call.Name() + "@" + fr.call.Parent().Name()
+				key += "/" + fr.id()
 			}
 		}
 		if seen[key] {
@@ -572,7 +651,11 @@ func nilWalk(fn *ssa.Function, from map[Edge]bool, after ssa.Instruction, cut ma
 				}
 			}
 			nested := len(it.stack) > 0
-			if _, isRet := in.(*ssa.Return); isRet && nested {
+			upSites := false
+			if _, isRet := in.(*ssa.Return); isRet && !nested && walkDescend != nil && walkDescend.Up != nil && it.ups < 2 {
+				upSites = len(walkDescend.Up(it.b.Parent())) > 0
+			}
+			if _, isRet := in.(*ssa.Return); isRet && (nested || upSites) {
 				// not an exit of the function under analysis
 			} else {
 				var savedSubst map[ssa.Value]ssa.Value
@@ -597,6 +680,19 @@ func nilWalk(fn *ssa.Function, from map[Edge]bool, after ssa.Instruction, cut ma
 				}
 			}
 			if walkDescend != nil {
+				if rd, ok := in.(*ssa.RunDefers); ok && len(it.stack) < walkDescend.MaxDepth {
+					if ds := deferredToRun(rd); len(ds) > 0 {
+						var psub map[ssa.Value]ssa.Value
+						if nested {
+							psub = it.stack[len(it.stack)-1].subst
+						}
+						d := ds[0]
+						ns := append(append([]walkFrame{}, it.stack...), walkFrame{dfr: d, blk: it.b, next: ii + 1, subst: deferSubst(psub, d), more: ds[1:]})
+						work = append(work, item{d.Call.StaticCallee().Blocks[0], nil, f.clone(), 0, cloneLast(lastStored), ns, it.ups})
+						stopped = true
+						break
+					}
+				}
 				if call, ok := in.(*ssa.Call); ok {
 					if g := descendInto(call, it.stack); g != nil {
 						nf := f.clone()
@@ -627,8 +723,8 @@ func nilWalk(fn *ssa.Function, from map[Edge]bool, after ssa.Instruction, cut ma
 								}
 							}
 						}
-						ns := append(append([]walkFrame{}, it.stack...), walkFrame{call, it.b, ii + 1, sub})
-						work = append(work, item{g.Blocks[0], nil, nf, 0, cloneLast(lastStored), ns})
+						ns := append(append([]walkFrame{}, it.stack...), walkFrame{call: call, blk: it.b, next: ii + 1, subst: sub})
+						work = append(work, item{g.Blocks[0], nil, nf, 0, cloneLast(lastStored), ns, it.ups})
 						stopped = true // the rest of this block continues when the callee returns
 						break
 					}
@@ -691,11 +787,78 @@ func nilWalk(fn *ssa.Function, from map[Edge]bool, after ssa.Instruction, cut ma
 			continue
 		}
 		last := it.b.Instrs[len(it.b.Instrs)-1]
+		if ret, ok := last.(*ssa.Return); ok && len(it.stack) == 0 && walkDescend != nil && walkDescend.Up != nil && it.ups < 2 {
+			callee := it.b.Parent()
+			for _, site := range walkDescend.Up(callee) {
+				g := f.clone()
+				nl := cloneLast(lastStored)
+				for i, rv := range ret.Results {
+					var key ssa.Value = site
+					if len(ret.Results) > 1 {
+						key = retOf{site, i}
+					}
+					if kn, n := Nilness(rv, f); kn {
+						g[key] = n
+					}
+					if k, ok := rv.(*ssa.Const); ok && k.Value != nil && k.Value.Kind() == constant.Bool {
+						g[boolOf{key}] = constant.BoolVal(k.Value)
+					} else if bv, ok := f[boolOf{rv}]; ok {
+						g[boolOf{key}] = bv
+					}
+				}
+				for k := range g {
+					if factOwner(k) == callee {
+						delete(g, k)
+					}
+				}
+				for k := range nl {
+					if factOwner(k) == callee {
+						delete(nl, k)
+					}
+				}
+				idx := -1
+				for i, in := range site.Block().Instrs {
+					if in == ssa.Instruction(site) {
+						idx = i
+					}
+				}
+				if idx >= 0 {
+					work = append(work, item{site.Block(), nil, g, idx + 1, nl, nil, it.ups + 1})
+				}
+			}
+			continue
+		}
 		if ret, ok := last.(*ssa.Return); ok && len(it.stack) > 0 {
 			fr := it.stack[len(it.stack)-1]
 			g := f.clone()
 			nl := cloneLast(lastStored)
 			callee := it.b.Parent()
+			if fr.call == nil {
+				// a deferred call returned: run the next one, or continue after RunDefers
+				for k := range g {
+					if factOwner(k) == callee {
+						delete(g, k)
+					}
+				}
+				for k := range nl {
+					if factOwner(k) == callee {
+						delete(nl, k)
+					}
+				}
+				rest := it.stack[:len(it.stack)-1]
+				if len(fr.more) > 0 {
+					var psub map[ssa.Value]ssa.Value
+					if len(rest) > 0 {
+						psub = rest[len(rest)-1].subst
+					}
+					d := fr.more[0]
+					ns := append(append([]walkFrame{}, rest...), walkFrame{dfr: d, blk: fr.blk, next: fr.next, subst: deferSubst(psub, d), more: fr.more[1:]})
+					work = append(work, item{d.Call.StaticCallee().Blocks[0], nil, g, 0, nl, ns, it.ups})
+				} else {
+					work = append(work, item{fr.blk, nil, g, fr.next, nl, rest, it.ups})
+				}
+				continue
+			}
 			type rf struct {
 				known, n   bool
 				bknown, bv bool
@@ -737,7 +900,7 @@ func nilWalk(fn *ssa.Function, from map[Edge]bool, after ssa.Instruction, cut ma
 					delete(g, boolOf{key})
 				}
 			}
-			work = append(work, item{fr.blk, nil, g, fr.next, nl, it.stack[:len(it.stack)-1]})
+			work = append(work, item{fr.blk, nil, g, fr.next, nl, it.stack[:len(it.stack)-1], it.ups})
 			continue
 		}
 		if ifi, ok := last.(*ssa.If); ok {
@@ -750,7 +913,7 @@ func nilWalk(fn *ssa.Function, from map[Edge]bool, after ssa.Instruction, cut ma
 						idx = 0
 					}
 					if !cut[Edge{it.b, idx}] {
-						work = append(work, item{it.b.Succs[idx], it.b, f.clone(), 0, cloneLast(lastStored), it.stack})
+						work = append(work, item{it.b.Succs[idx], it.b, f.clone(), 0, cloneLast(lastStored), it.stack, it.ups})
 					}
 					continue
 				}
@@ -762,7 +925,7 @@ func nilWalk(fn *ssa.Function, from map[Edge]bool, after ssa.Instruction, cut ma
 						g := f.clone()
 						// cond true on edge 0: value == !Negated
 						g[boolOf{a.Val}] = (idx == 0) != a.Negated
-						work = append(work, item{it.b.Succs[idx], it.b, g, 0, cloneLast(lastStored), it.stack})
+						work = append(work, item{it.b.Succs[idx], it.b, g, 0, cloneLast(lastStored), it.stack, it.ups})
 					}
 					continue
 				}
@@ -782,7 +945,7 @@ func nilWalk(fn *ssa.Function, from map[Edge]bool, after ssa.Instruction, cut ma
 						idx = 1 - eqIdx
 					}
 					if !cut[Edge{it.b, idx}] {
-						work = append(work, item{it.b.Succs[idx], it.b, f.clone(), 0, cloneLast(lastStored), it.stack})
+						work = append(work, item{it.b.Succs[idx], it.b, f.clone(), 0, cloneLast(lastStored), it.stack, it.ups})
 					}
 					continue
 				}
@@ -792,7 +955,7 @@ func nilWalk(fn *ssa.Function, from map[Edge]bool, after ssa.Instruction, cut ma
 					}
 					g := f.clone()
 					applyEdgeFact(Edge{it.b, idx}, g, isCell, lastStored)
-					work = append(work, item{it.b.Succs[idx], it.b, g, 0, cloneLast(lastStored), it.stack})
+					work = append(work, item{it.b.Succs[idx], it.b, g, 0, cloneLast(lastStored), it.stack, it.ups})
 				}
 				continue
 			}
@@ -801,7 +964,7 @@ func nilWalk(fn *ssa.Function, from map[Edge]bool, after ssa.Instruction, cut ma
 			if cut[Edge{it.b, idx}] {
 				continue
 			}
-			work = append(work, item{s, it.b, f.clone(), 0, cloneLast(lastStored), it.stack})
+			work = append(work, item{s, it.b, f.clone(), 0, cloneLast(lastStored), it.stack, it.ups})
 		}
 	}
 	return res
@@ -817,7 +980,7 @@ func descendInto(call *ssa.Call, stack []walkFrame) *ssa.Function {
 		return nil
 	}
 	for _, fr := range stack {
-		if fr.call.Parent() == g || fr.call.Call.StaticCallee() == g {
+		if fr.owner() == g || fr.callee() == g {
 			return nil
 		}
 	}
@@ -946,6 +1109,10 @@ func WalkDeep(maxDepth int, skip func(*ssa.Function) bool, f func()) {
 	f()
 }
 
+// DeepUp, when set, lets the deep path searches continue in the callers of the function they
+// started in (see walkDescendMode.Up).
+var DeepUp func(callee *ssa.Function) []*ssa.Call
+
 // PathAvoidingDeep is PathAvoiding / PathFromEdgeAvoiding on the interprocedural, nil-test
 // sensitive walker: static calls of module functions and directly called function literals are
 // entered (two levels); the returns of entered functions are not targets. overflow: the state
@@ -957,6 +1124,7 @@ func PathAvoidingDeep(fn *ssa.Function, from ssa.Instruction, edges map[Edge]boo
 	}
 	defer func() { MaxWalkStates = savedMax }()
 	WalkDeep(2, nil, func() {
+		walkDescend.Up = DeepUp
 		on := func(in ssa.Instruction, f NilFacts) {
 			if !found && target(in) {
 				found, where = true, in
